@@ -154,6 +154,16 @@ func (e *c02Epochs) after(st rig.StepResult, what string) {
 			}
 			e.logf("  first-time %s %d", en.MsgType, en.Seq)
 			delete(e.pendingTx, en.Seq)
+			// numbers go out in increasing order, so a frame that leaves while a lower number handed
+			// out in this logged-on period is still waiting has overtaken it for good: that number
+			// can no longer be transmitted for the first time
+			if e.inPeriod {
+				for n, id := range e.pendingTx {
+					if n < en.Seq {
+						vk.Violation(e.t, e.c, "C02/assigned-number-overtaken", "during %s frame %d (%s) was transmitted while number %d (application message %s, handed out earlier in the same logged-on period) had not been\n%s", what, en.Seq, en.MsgType, n, id, e.history())
+					}
+				}
+			}
 			if en.Seq <= e.lastFirst {
 				vk.Violation(e.t, e.c, "C02/first-time-frames-out-of-order", "during %s frame %d after %d\n%s", what, en.Seq, e.lastFirst, e.history())
 			}
@@ -263,10 +273,33 @@ func c02EpochsProperty(t *rapid.T) {
 			st, err := e.r.Send(m)
 			e.logf("send o%d -> %v (state %s)", n, err, e.r.V.StateName())
 			e.after(st, "send")
+			// the run loop usually gets to the queue at once, but other events may come first
+			if rapid.IntRange(0, 3).Draw(t, "other-events-first") == 0 {
+				e.feat["send-left-in-the-queue"] = true
+				return
+			}
 			st, took := e.r.Flush()
 			if took {
 				e.after(st, "flush")
 			}
+		},
+		"flush": func(t *rapid.T) {
+			st, took := e.r.Flush()
+			if took {
+				e.logf("run loop flushes the send queue")
+				e.after(st, "flush")
+			}
+		},
+		"peer-sends-a-used-number": func(t *rapid.T) {
+			// a message numbered below the expected number without PossDupFlag: the engine itself
+			// starts the logout (whatever is queued was accepted while logged on and goes out first)
+			if !e.r.V.IsLoggedOn() || e.r.T() < 2 {
+				return
+			}
+			f := e.p.Frame("0", e.r.T()-1, nil, peer.Opt{})
+			e.logf("peer sends a Heartbeat numbered %d (expected %d)", e.r.T()-1, e.r.T())
+			e.feat["engine-initiated-logout"] = true
+			e.after(e.r.In(f), "too-low message")
 		},
 		"testrequest": func(t *rapid.T) {
 			if !e.r.V.IsLoggedOn() {
